@@ -417,7 +417,7 @@ def generate(ck, scale):
         cases.append(("ncl", p.encode(), "grammar:ill-typed", "G-bad"))
     for _ in range(n(200)):
         cases.append(("ncl", gen.row_program(rng).encode(), "grammar:ill-typed:rows", "W"))
-    for _ in range(n(450)):
+    for _ in range(n(350)):
         p = gen.primop_case(rng, prims, stdfuns)
         if rng.chance(1, 4):
             p = "(%s) : %s" % (p, rng.choice(["Number", "String", "Dyn", "Array Number", "{a : Number}", "forall a. a -> a"]))
@@ -972,6 +972,40 @@ def run_matrix(ck):
     process(ck, cases, res)
 
 
+# ----------------------------------------------------------------------------- multiline string layouts
+
+def run_multiline(ck):
+    """Exhaustive cross product of multiline-string layouts (checks/c10_gen.py multiline_matrix),
+    batched 16 per program; a batch that does not go through cleanly is re-run member by member;
+    every twentieth layout is also used under a failing contract so that a diagnostic spanning the
+    multiline string is rendered."""
+    m = gen.multiline_matrix()
+    batches = gen.multiline_batches(m, 16)
+    ck.coverage["multiline_layouts"] = {"layouts": len(m), "batches": len(batches)}
+    fmt_of = lambda i: "ncl" if i % 8 == ck.seed % 8 else "ncl,lean"
+    rc, res, err = run_pipeline([case_line(fmt_of(i), gen.multiline_program(b).encode()) for i, b in enumerate(batches)], timeout=90)
+    if rc:
+        ck.obligation("multiline-run", "internal", False, "rc=%s %s" % (rc, err[-800:]))
+    singles = []
+    for b, r in zip(batches, res):
+        fs, st, _ = findings_of("ncl\t00", r) if r.startswith("R ") else ([("x", "x")], {}, None)
+        clean = r.startswith("R ") and not fs and all(st.get(k, "").startswith("ok") for k in ("parse_strict", "typecheck_walk", "eval_full", "query")) \
+            and not any(v == "PANIC" for v in st.values())
+        if clean:
+            for lit, d in b:
+                ck.case(key="multiline:" + lit, nontrivial=True)
+            ck.count("multiline_layouts_clean_in_batch", len(b))
+        else:
+            singles += [("ncl,lean", ('let x = "X" in ' + lit).encode(), "multiline", d) for lit, d in b]
+    k0 = ck.seed % 20
+    singles += [("ncl,errs", ('let x = "X" in (' + lit + " | Number)").encode(), "multiline:error", d) for i, (lit, d) in enumerate(m) if i % 20 == k0]
+    ck.count("multiline_programs_run_individually", len(singles))
+    rc, res, err = run_pipeline([case_line(f, d) for f, d, _, _ in singles], timeout=60)
+    if rc:
+        ck.obligation("multiline-run", "internal", False, "rc=%s %s" % (rc, err[-800:]))
+    process(ck, singles, res)
+
+
 # ----------------------------------------------------------------------------- type law, error matrix
 
 def run_type_law(ck):
@@ -1074,6 +1108,7 @@ def run(ck):
         correspond_lexer(ck, exe_model, n_lex)
         correspond_toml(ck, exe_model, int((400 if quick else 8000) * min(scale, 1)) if scale < 1 else (400 if quick else 8000))
     run_matrix(ck)
+    run_multiline(ck)
     run_type_law(ck)
     run_error_matrix(ck)
     cor = corpus_cases()
@@ -1103,6 +1138,7 @@ def run(ck):
         "numbers, strings with interpolation and multiline strings, booleans, enums, arrays, records with metadata, let/fun/if/match, annotations, std calls), "
         "grammar-generated well-formed JSON / YAML / TOML documents with edge scalars (inf, nan, huge and odd numbers, dates, tags, anchors and aliases, merge keys, non-ASCII and empty keys) at every structural position (tables, dotted keys, inline tables, arrays, arrays of tables, inline tables inside arrays ...), as main file, through a real file import and through std.deserialize; "
         "an exhaustive annotation matrix (every position where the grammar allows an annotation or a type: let, let rec, let blocks, inline | and :, record fields with |, :, both, without definition, piecewise, paths, quoted and dynamic names, every metadata combination, include, patterns in let / fun / match with defaults and sub-patterns, record types and contracts, types as values, function bodies, array elements, match arms ... x every type shape: identifiers, arrays, arrows, the three kinds of forall, enums with payloads, records with and without tails, both dictionary flavours, nested x every identifier kind inside types: builtin, let-bound alias, let-bound contract, field-bound, std path, record access, application; about 7300 programs, batched by position, each through lex, parse, both typechecking modes, full evaluation with pretty-printing and query, plus a rotating seventh with values violating the annotation); "
+        "an exhaustive matrix of multiline-string layouts (up to three lines x indentation 0/2/4 x text / interpolation at the start of the line / after text / blank / whitespace-only lines x line break after the opening and before the closing delimiter, with delimiter length, CRLF, tabs, nested and multiline interpolated expressions rotating; about 3800 layouts, batched; every twentieth also under a failing contract so that a diagnostic spanning the string is rendered); "
         "an error matrix (every type shape x 21 systematic static type errors with the shape on the expected and on the inferred side: arrow domain / codomain / nested / arity mismatches, plain mismatches, missing / extra / mismatching record and enum rows, array and dictionary element mismatches, rigid type variables, record-to-dictionary; and x run-time blame errors violating each path of the shape, the contract reaching the value through 16 kinds of source: inline, let, field, let-bound / record-stored / function-made type, std.contract.apply, wrapped in an array, dictionary, enum payload, arrow domain or codomain, record type, pattern; about 2200 programs, each ending in an error that is rendered as text with and without colour and as JSON, labels checked); the printer / parser law on about 5000 types (every shape in every type context, composed twice): the runtime printer's output parses back with FixedTypeParser and is stable; "
         "ill-typed (same skeleton with sub-terms of another type, wrong annotations, every %primop% of the lexer's token table and every function of "
         "std.{array,string,number,record,contract,enum,function} applied to a pool of edge values), ill-formed (token-level damage of generated programs); "
